@@ -493,3 +493,16 @@ func init() {
 		}
 	}
 }
+
+func init() {
+	// debug funcs x: every source function with its number of instructions (blind-spot review)
+	debugHooks["funcs"] = func(c *Ctx, arg string) {
+		for _, fn := range c.Funcs {
+			n := 0
+			for _, b := range fn.Blocks {
+				n += len(b.Instrs)
+			}
+			fmt.Printf("%s\t%d\t%s\n", c.fnName(fn), n, c.posStr(fn.Pos()))
+		}
+	}
+}
